@@ -29,14 +29,15 @@ pub const POSITIONS: [(&str, &str, &str); 6] = [
 /// Atoms: every literal kind, every kind of path, the bare diverging forms,
 /// and a few closed calls whose types are interesting (zero-sized, tracked).
 pub const ATOMS: [&str; 48] = [
-    // the first 16 are the reduced set used for depth 2 in the quick tier
-    "1", "true", "\"s\"", "()", "x", "l", "o", "r", "e", "u", "return", "Option.None", "[]", "{}", "E.A", "mkz()",
+    // the first 8 are the reduced set used below depth-2 expressions in the quick tier
+    "1", "()", "x", "l", "o", "return", "None", "[]",
     //
+    "true", "\"s\"", "r", "e", "u", "Option.None", "{}", "E.A", "mkz()",
     "1u8", "1.5", "'c'", "AS1", "1.1.1.1", "::1", "0x1f", "f\"t\"", "[1]", "{ a: 1 }", "s", "K", "g", "R", "E", "E.B",
-    "None", "r.a", "x.a", "l.len", "E.A.x", "std", "pkg", "super", "String", "return 1", "accept", "reject",
+    "r.a", "x.a", "l.len", "E.A.x", "std", "pkg", "super", "String", "return 1", "accept", "reject",
     "g(1)", "Option.Some(())", "mk(1)", "9223372036854775808",
 ];
-pub const ATOMS_REDUCED: usize = 16;
+pub const ATOMS_REDUCED: usize = 8;
 
 /// One-hole templates. `□`: the hole is delimited, the child is inserted as
 /// is; `■`: the child is parenthesised unless it is an atom, so that the
